@@ -1063,7 +1063,7 @@ def run_C01(rep, tier, rng):
             if kind == "panic":
                 rep.violation("emitted parse panicked", {"label": r["label"], "source": r["text"], "tokens": s})
                 continue
-            if len(s) <= 200:
+            if len(s) <= 120:
                 want = oracle.recognize(G, s)
             else:
                 # a long input: the reference is the model driver on the model's tables (proved to decide the language;
@@ -1101,14 +1101,14 @@ def run_C02(rep, tier, rng):
             kind, detail, pulls = _impl_res(r, si)
             if kind == "skip":      # the compiler did not finish on this module: nothing was observed
                 continue
-            if kind in ("panic", "missing") and len(s) <= 200 and oracle.recognize(G, s):
+            if kind in ("panic", "missing") and len(s) <= 120 and oracle.recognize(G, s):
                 rep.violation("no derivation tree is returned for a sentence: the emitted parse " + ("panicked" if kind == "panic" else "did not return"),
                               {"label": r["label"], "source": r["text"], "tokens": s})
                 continue
             if kind != "ok":
                 continue
             ev += 1
-            if len(s) > 200:
+            if len(s) > 120:
                 # a long input: the reference value is the model driver's (Debug rendering of the tree it returns)
                 mr0 = _model_res(r, si)
                 if mr0 is not None and isinstance(mr0[0], str) and mr0[0].startswith("ok ") and detail != mr0[0][3:]:
